@@ -81,7 +81,7 @@ def gen_world(rng: Rng) -> dict:
         if rng.chance(0.35) and not long_file:
             # templated file (jinja is the default templater): template tags, comments and expressions
             # are source-only text that no fix may touch; the SQL around them carries the violations
-            variant = rng.choice(["for", "if", "set", "comment", "trim", "for_ws", "for_ws", "for_ws"])
+            variant = rng.choice(["for", "if", "set", "comment", "trim", "for_ws", "for_ws", "for_ws", "src_run", "src_run", "src_run"])
             if variant == "for":
                 jinja_tags = ["{% for c in ['a', 'b'] %}", "{{ c }},", "{% endfor %}"]
                 block = "SELECT\n    {% for c in ['a', 'b'] %}\n        {{ c }},\n    {% endfor %}\n    z\nFROM tbl\n"
@@ -92,6 +92,25 @@ def gen_world(rng: Rng) -> dict:
                 ws = rng.choice(["  ", " ", "\t"])
                 jinja_tags = ["{% for c in ['a', 'b', 'd'] %}", inner, "{{ c }},", "{% endfor %}"]
                 block = "SELECT\n    {% for c in ['a', 'b', 'd'] %}\n        " + inner + ws + "\n        {{ c }},\n    {% endfor %}\n    z\nFROM tbl\n"
+            elif variant == "src_run":
+                # a run of 1-3 ADJACENT source-only elements (each with its own text, so each is a protected
+                # token of its own), mostly followed by trailing whitespace that a fix deletes: the patch for the
+                # whitespace maps back to a source range that touches zero-width template slices on one side
+                pool = ["{# note one #}", "{# second remark #}", "{% set u1 = 1 %}", "{% set u2 = 'x' %}", "{% if 1 == 1 %}{% endif %}", "{# third #}"]
+                elems = rng.sample(pool, rng.choice([1, 2, 2, 3]))
+                run = rng.choice(["", "", " "]).join(elems)
+                ws = rng.choice(["  ", " ", "\t", "  ", ""])
+                jinja_tags = list(elems)
+                where = rng.choice(["line_end", "own_line", "loop", "file_end"])
+                if where == "line_end":
+                    block = "SELECT a, b" + rng.choice(["", " "]) + run + ws + "\nFROM tbl\n"
+                elif where == "own_line":
+                    block = "SELECT a\n" + run + ws + "\nFROM tbl\n"
+                elif where == "file_end":
+                    block = "SELECT a\nFROM tbl" + rng.choice(["", " ", "\n"]) + run + ws + "\n"
+                else:
+                    jinja_tags = ["{% for c in ['a', 'b', 'd'] %}"] + elems + ["{{ c }},", "{% endfor %}"]
+                    block = "SELECT\n    {% for c in ['a', 'b', 'd'] %}\n        " + run + ws + "\n        {{ c }},\n    {% endfor %}\n    z\nFROM tbl\n"
             elif variant == "if":
                 jinja_tags = ["{% if true %}", "{% else %}", "{% endif %}"]
                 block = "SELECT a\nFROM tbl\n{% if true %}\n    WHERE a > 1\n{% else %}\n    WHERE a < 1\n{% endif %}\n"
